@@ -381,6 +381,107 @@ def legacyText (pre : List Str) (gs : List FGroup) (nl : Bool) : Str :=
 def legacyAsIfText (pre : List Str) (gs : List FGroup) (nl : Bool) : Str :=
   joinNL (pre ++ gs.flatMap FGroup.block) ++ (if nl then [10] else [])
 
+/-! ### old-style groups: `Group:` / `Flavor = f`… / `Qualifiers = "…"` / `Common:` / `Action = setup` / … / `End:` -/
+
+/-- a keyword line such as `Group:` — the keyword as spelled, colon included, and the blanks after it -/
+structure KwLine where
+  wrap : Wrap
+  kw : Str
+  after : Str
+  deriving Repr
+
+def KwLine.core (k : KwLine) : Str := k.kw ++ k.after
+def KwLine.raw (k : KwLine) : Str := k.wrap.around k.core
+def KwLine.ok (target : Str) (k : KwLine) : Bool := k.wrap.ok && Str.lower k.kw == target && hblank k.after
+
+/-- `key = value` lines: `File = Table`, `Product = foo`, `Action = setup`, `Qualifiers = "…"` (the value of the
+last one between quotes) -/
+structure EqLine where
+  wrap : Wrap
+  kw : Str
+  s1 : Str
+  s2 : Str
+  value : Str
+  after : Str
+  deriving Repr
+
+def EqLine.core (e : EqLine) : Str := e.kw ++ e.s1 ++ [61] ++ e.s2 ++ e.value ++ e.after
+def EqLine.raw (e : EqLine) : Str := e.wrap.around e.core
+/-- well-formed for keyword `target`, value made of characters `cls` -/
+def EqLine.ok (target : Str) (cls : Nat → Bool) (e : EqLine) : Bool :=
+  e.wrap.ok && Str.lower e.kw == target && hblank e.s1 && hblank e.s2 && !e.value.isEmpty && e.value.all cls
+    && hblank e.after
+
+/-- `Qualifiers = "text"`: the value is the quoted text -/
+def qualOK (e : EqLine) : Bool :=
+  e.wrap.ok && Str.lower e.kw == sQualifiers && hblank e.s1 && hblank e.s2 && hblank e.after &&
+    (match e.value with
+     | 34 :: r => r.getLast? == some 34 && r.dropLast.all (fun c => c != 34 && c != 10 && c != 35 && c != 36)
+     | _ => false)
+
+/-- the piece of the condition a flavor contributes in an old-style group -/
+def flavPiece (f : Str) : Str := if Str.lower f == sAny then sFlavorAny else sFlavorEq ++ f
+
+def ogCond (f : Str) (gs : List Str) : Str := gs.foldl (fun c g => c ++ sBarBar ++ flavPiece g) (flavPiece f)
+
+structure OGroup where
+  group : KwLine
+  f : FlavLine
+  more : List FlavLine
+  qual : Option EqLine
+  common : KwLine
+  action : Option EqLine
+  body : List Str            -- the lines of the group
+  end_ : KwLine
+  after : List Str           -- lines between `End:` and the next group
+  deriving Repr
+
+def OGroup.ok (g : OGroup) : Bool :=
+  g.group.ok sGroupC && g.f.ok && g.more.all FlavLine.ok && (match g.qual with | some q => qualOK q | none => true)
+    && g.common.ok sCommonC
+    && (match g.action with
+        | some a => a.ok sAction isTokCh && isInfix sSetup (Str.lower a.value)
+        | none => true)
+    && g.body.all passesLine && g.end_.ok sEndC && g.after.all passesLine
+
+def optLine (o : Option EqLine) : List Str :=
+  match o with
+  | some e => [e.raw]
+  | none => []
+
+def OGroup.raws (g : OGroup) : List Str :=
+  g.group.raw :: g.f.raw :: g.more.map FlavLine.raw ++ optLine g.qual ++ [g.common.raw] ++ optLine g.action ++ g.body
+    ++ [g.end_.raw] ++ g.after
+
+def OGroup.ifLine (g : OGroup) : Str := sIfOpen ++ ogCond g.f.flavor (g.more.map FlavLine.flavor) ++ sIfClose
+
+def stripped (ls : List Str) : List Str := (ls.map strip).filter (fun l => !l.isEmpty)
+
+/-- the block the group is equivalent to, and the lines after it -/
+def OGroup.block (g : OGroup) : List Str := g.ifLine :: stripped g.body ++ [sClose] ++ stripped g.after
+
+/-- the header of an old-style table -/
+structure OHeader where
+  file : EqLine
+  product : EqLine
+  deriving Repr
+
+def OHeader.ok (h : OHeader) : Bool :=
+  h.file.ok sFile isWordCh && Str.lower h.file.value == sTable && h.product.ok sProduct isWordCh
+
+def hdrLines (h : Option OHeader) : List Str :=
+  match h with
+  | some h => [h.file.raw, h.product.raw]
+  | none => []
+
+/-- an old-style legacy table -/
+def oldLegacyText (h : Option OHeader) (pre : List Str) (gs : List OGroup) (nl : Bool) : Str :=
+  joinNL (hdrLines h ++ pre ++ gs.flatMap OGroup.raws) ++ (if nl then [10] else [])
+
+/-- the same table with every group written as the `if` block it stands for (and no header) -/
+def oldLegacyAsIfText (pre : List Str) (gs : List OGroup) (nl : Bool) : Str :=
+  joinNL (pre ++ gs.flatMap OGroup.block) ++ (if nl then [10] else [])
+
 /-! ## arguments as written -/
 
 /-- an argument as written: its value, and whether it is written between double quotes -/
